@@ -819,3 +819,6 @@ func VerifC10SharedLambda() {
 	}
 	vassert(c10Count(evs, "h", "start", "C") == 0, "nothing is reported under the name of a node of another graph")
 }
+
+// thorough tier: three undesignated handlers, nested graph, streaming
+func VerifC10Par3NestedStream() { c10Parallel(3, true, true) }
